@@ -148,6 +148,8 @@ class Cfg:
     p_attr: float = 0.4
     p_prop: float = 0.3
     p_successor: float = 0.8      # a terminator in a multi-block region branches
+    entry_successors: bool = False  # allow branches to the ENTRY block of a region (MLIR forbids it; xDSL's verifier
+    #                                 does not, but the printer omits the entry label, so such IR does not re-parse)
     # operand source weights
     w_back: float = 4.0           # earlier value of the same block / own block argument
     w_enclosing: float = 3.0      # defined before the enclosing op in an enclosing block (or its block args)
@@ -166,7 +168,7 @@ class Cfg:
     @staticmethod
     def hostile(**kw):
         """Everything on: forward references, cycles, empty blocks, wild terminators."""
-        d = dict(verifiable=False, p_empty_block=0.1, p_value_cycle=0.15, w_fwd_same_block=3.0, w_other_block=3.0,
+        d = dict(verifiable=False, entry_successors=True, p_empty_block=0.1, p_value_cycle=0.15, w_fwd_same_block=3.0, w_other_block=3.0,
                  w_enclosing_fwd=2.5, p_multiblock=0.5)
         d.update(kw)
         return Cfg(**d)
@@ -373,14 +375,16 @@ class _Gen:
             return []
         multi = parent_name != "builtin.module" and rng.random() < cfg.p_multiblock and cfg.max_blocks >= 2
         nb = rng.randint(2, cfg.max_blocks) if multi else 1
-        parent_noterm = parent_name == "builtin.module" or parent_name is None and nb == 1 or \
-            parent_name is not None and parent_name.split(".")[0] in ("unreg", "custom")
+        # xDSL wants a terminator at the end of every block of a multi-block region and of the single block of a
+        # region whose parent op lacks NoTerminator (unregistered parents answer True to every has_trait query)
+        parent_noterm = parent_name is None or parent_name == "builtin.module" or \
+            parent_name.split(".")[0] in ("unreg", "custom")
         blocks = []
         for bi in range(nb):
             need_term = cfg.verifiable and (nb > 1 or not parent_noterm)
             blocks.append(self.new_block(depth, need_term, entry=(bi == 0), module=(parent_name == "builtin.module")))
         # successors: only blocks of this region
-        ids = [b["id"] for b in blocks]
+        ids = [b["id"] for b in blocks] if cfg.entry_successors else [b["id"] for b in blocks[1:]]
         for b in blocks:
             if not b["ops"]:
                 continue
@@ -402,10 +406,9 @@ class _Gen:
         nargs = min(nargs, cfg.max_block_args)
         args = [self.ty() for _ in range(nargs)]
         b = {"id": bid, "args": args, "ah": [self.hint() for _ in args], "ops": []}
-        empty_ok = (not need_term) or (not entry)
         if rng.random() < cfg.p_empty_block and (not cfg.verifiable or not need_term):
             return b
-        n = rng.randint(0 if empty_ok else 0, cfg.max_block_ops)
+        n = rng.randint(0, cfg.max_block_ops)
         if module:
             n = max(n, min(3, cfg.max_ops))
         for _ in range(n):
@@ -508,7 +511,7 @@ class Built:
             return self.ops[ref[1]].results[ref[2]]
         if ref[0] == "a":
             return self.blocks[ref[1]].args[ref[2]]
-        return self.outside[ref[2] if len(ref) > 2 else ref[1]]
+        return self.outside[ref[1]]
 
 
 def _op_class(name):
